@@ -26,6 +26,15 @@ type Commit struct {
 	Rank int   `json:"rank"`
 }
 
+// clockValue: the specification's integers stop at 32 bits; its values from 2000000 on stand for clocks near the top of the
+// 64-bit range (order preserved)
+func clockValue(et int) uint64 {
+	if et >= 2000000 {
+		return uint64(1)<<63 + uint64(et-2000000)
+	}
+	return uint64(et)
+}
+
 type Vec struct {
 	Dag   []Commit `json:"dag"`
 	Ok    bool     `json:"ok"`
@@ -124,7 +133,7 @@ func build(repo repository.ClockedRepo, author identity.Interface, v Vec) (head 
 		tree := []repository.TreeEntry{
 			{ObjectType: repository.Blob, Hash: empty, Name: "version-4"},
 			{ObjectType: repository.Blob, Hash: blob, Name: "ops"},
-			{ObjectType: repository.Blob, Hash: empty, Name: fmt.Sprintf("edit-clock-%d", c.Et)},
+			{ObjectType: repository.Blob, Hash: empty, Name: fmt.Sprintf("edit-clock-%d", clockValue(c.Et))},
 		}
 		if c.Ct > 0 {
 			tree = append(tree, repository.TreeEntry{ObjectType: repository.Blob, Hash: empty, Name: fmt.Sprintf("create-clock-%d", c.Ct)})
